@@ -28,6 +28,9 @@ def line(i):
     kind, sp, t, pat, acc = i
     return 'view %s %s pat=%s%s k=%s' % (kind, t, pat_str(pat), (' sp=%s' % sp) if sp is not None else '', acc)
 def t2(t): return 'i64'
+def twin(pat):
+    """the all-static extents an instantiation's views can be converted to (explicitly): dynamic positions get the value k+2"""
+    return tuple(p if p is not None else k + 2 for k, p in enumerate(pat))
 def sources(ntu=32, insts=None):
     tus = [[] for _ in range(ntu)]
     for n, i in enumerate(insts if insts is not None else instances()):
@@ -37,7 +40,8 @@ def sources(ntu=32, insts=None):
         A = {'def': 'md::default_accessor<int>', 'st': 'StAcc<int>', 'px': 'PxAcc<int>', 'eh': 'EhAcc<int>', 'sh': 'ShiftAcc<int>'}[acc]
         A2 = {'def': 'md::default_accessor<const int>', 'st': 'StAcc<const int>', 'px': 'PxAcc<const int>', 'eh': 'EhAcc<const int>', 'sh': 'ShiftAcc<const int>'}[acc]
         E2 = cxx_extents(t2(t), [None] * len(pat))
-        tus[n % ntu].append('  regView<%s, %s, %s, %s, md::mdspan<const int, %s, %s, %s>>("%s");' % (KINDS[kind], E, spv, A, E2, lay, A2, key(i)))
+        E3 = cxx_extents(t, twin(pat))
+        tus[n % ntu].append('  regView<%s, %s, %s, %s, md::mdspan<const int, %s, %s, %s>, md::mdspan<const int, %s, %s, %s>>("%s");' % (KINDS[kind], E, spv, A, E2, lay, A2, E3, lay, A2, key(i)))
     srcs = [('view_tu%d.cpp' % i, '#include "viewsrv.hpp"\nusing namespace vh;\nvoid reg_view_%d() {\n%s\n}\n' % (i, '\n'.join(b))) for i, b in enumerate(tus)]
     srcs.append(('view_main.cpp', '#include "vh.hpp"\n' + ''.join('void reg_view_%d();\n' % i for i in range(ntu)) + 'int main() {\n' + ''.join('  reg_view_%d();\n' % i for i in range(ntu)) + '  return vh::serve();\n}\n'))
     return srcs
